@@ -31,9 +31,9 @@ fn main() {
                 "C03X" => cc::emit(&cc::Emit { out: &out, prefix: pfx, ncrates: 4, nutype_dep: feat_all, nostd: false, extra_deps: cc::STD_EXTRA_DEPS.into(), minimal_prelude: false, crate_header: String::new() }, &cc::c03x_cases(tier), serde_json::json!({"prop": "C03X"})),
                 "C05" => cc::emit(&cc::Emit { out: &out, prefix: pfx, ncrates: n, nutype_dep: feat_all, nostd: false, extra_deps: cc::STD_EXTRA_DEPS.into(), minimal_prelude: false, crate_header: String::new() }, &cc::c05_cases(tier), serde_json::json!({"prop": "C05"})),
                 "C05N" => cc::emit(&cc::Emit { out: &out, prefix: pfx, ncrates: 1, nutype_dep: "nutype = { path = \"/repo/nutype\" }".into(), nostd: false, extra_deps: cc::STD_EXTRA_DEPS.into(), minimal_prelude: false, crate_header: String::new() }, &cc::c05_nofeature_cases(), serde_json::json!({"prop": "C05N"})),
-                "C15" => cc::emit(&cc::Emit { out: &out, prefix: pfx, ncrates: n, nutype_dep: "nutype = { path = \"/repo/nutype\", default-features = false, features = [\"serde\", \"arbitrary\"] }".into(), nostd: true, extra_deps: "serde = { version = \"1\", default-features = false, features = [\"derive\"] }\narbitrary = \"1.3\"\n".into(), minimal_prelude: true, crate_header: cc::c15_header() }, &cc::c15_cases(tier), serde_json::json!({"prop": "C15"})),
-                "C15S" => cc::emit(&cc::Emit { out: &out, prefix: pfx, ncrates: n, nutype_dep: "nutype = { path = \"/repo/nutype\", features = [\"serde\", \"arbitrary\"] }".into(), nostd: false, extra_deps: "serde = { version = \"1\", features = [\"derive\"] }\narbitrary = \"1.3\"\n".into(), minimal_prelude: true, crate_header: cc::c15_header() }, &cc::c15_cases(tier), serde_json::json!({"prop": "C15S"})),
-                "C15P" => cc::emit(&cc::Emit { out: &out, prefix: pfx, ncrates: n, nutype_dep: "nutype = { path = \"/repo/nutype\", default-features = false, features = [\"serde\", \"arbitrary\"] }".into(), nostd: true, extra_deps: "serde = { version = \"1\", default-features = false, features = [\"derive\"] }\narbitrary = { path = \"/verif/harness/shims/arbitrary_nostd\" }\n".into(), minimal_prelude: true, crate_header: cc::c15_header() }, &cc::c15_cases(tier), serde_json::json!({"prop": "C15P"})),
+                "C15" => cc::emit(&cc::Emit { out: &out, prefix: pfx, ncrates: n, nutype_dep: "nutype = { path = \"/repo/nutype\", default-features = false, features = [\"serde\", \"arbitrary\", \"new_unchecked\"] }".into(), nostd: true, extra_deps: "serde = { version = \"1\", default-features = false, features = [\"derive\"] }\narbitrary = \"1.3\"\n".into(), minimal_prelude: true, crate_header: cc::c15_header() }, &cc::c15_cases(tier), serde_json::json!({"prop": "C15"})),
+                "C15S" => cc::emit(&cc::Emit { out: &out, prefix: pfx, ncrates: n, nutype_dep: "nutype = { path = \"/repo/nutype\", features = [\"serde\", \"arbitrary\", \"new_unchecked\"] }".into(), nostd: false, extra_deps: "serde = { version = \"1\", features = [\"derive\"] }\narbitrary = \"1.3\"\n".into(), minimal_prelude: true, crate_header: cc::c15_header() }, &cc::c15_cases(tier), serde_json::json!({"prop": "C15S"})),
+                "C15P" => cc::emit(&cc::Emit { out: &out, prefix: pfx, ncrates: n, nutype_dep: "nutype = { path = \"/repo/nutype\", default-features = false, features = [\"serde\", \"arbitrary\", \"new_unchecked\"] }".into(), nostd: true, extra_deps: "serde = { version = \"1\", default-features = false, features = [\"derive\"] }\narbitrary = { path = \"/verif/harness/shims/arbitrary_nostd\" }\n".into(), minimal_prelude: true, crate_header: cc::c15_header() }, &cc::c15_cases(tier), serde_json::json!({"prop": "C15P"})),
                 _ => { eprintln!("unknown cc prop"); std::process::exit(2); }
             }
         }
